@@ -196,6 +196,11 @@ pub fn replay(path: &str) -> ! {
     if v["property"].as_str() == Some("C15") {
         crate::c15::replay(w);
     }
+    if v["property"].as_str() == Some("C12") {
+        // the client half is 64 handshakes: re-run them all
+        println!("replaying the client half of C12 (recorded: {})", w);
+        crate::c12c::run(Tier::Quick);
+    }
     let name = w["scenario"].as_str().unwrap_or("");
     let choices: Vec<u32> = w["choices"].as_array().map(|a| a.iter().map(|x| x.as_u64().unwrap_or(0) as u32).collect()).unwrap_or_default();
     for tier in [Tier::Quick, Tier::Thorough] {
